@@ -93,6 +93,47 @@ func preCheckDecide(c *core.Ctx, fn *ssa.Function, a, b ssa.Instruction) *preChe
 	if !ok {
 		return nil
 	}
+	inline := false
+	if an.CalleeName(&call.Call) == "(*sync.RWMutex).RLock" {
+		// the section written out in the operation itself: `c.mu.RLock(); stale := c.isStale(key, ev);
+		// c.mu.RUnlock(); if stale { return false }` — one call of a private bool method between
+		// the two, nothing else
+		var only *ssa.Call
+		closed := false
+		started := false
+		for _, in := range a.Block().Instrs {
+			if in == a {
+				started = true
+				continue
+			}
+			if !started || closed {
+				continue
+			}
+			switch x := in.(type) {
+			case *ssa.FieldAddr, *ssa.UnOp, *ssa.DebugRef, *ssa.Store:
+				if st, isSt := x.(*ssa.Store); isSt {
+					if _, local := st.Addr.(*ssa.Alloc); !local {
+						return nil
+					}
+				}
+			case *ssa.Call:
+				if an.CalleeName(&x.Call) == "(*sync.RWMutex).RUnlock" {
+					closed = true
+					continue
+				}
+				if only != nil {
+					return nil
+				}
+				only = x
+			default:
+				return nil
+			}
+		}
+		if !closed || only == nil {
+			return nil
+		}
+		call, inline = only, true
+	}
 	P := an.StaticCallee(&call.Call)
 	if P == nil || !an.PrivateHelper(P) || P.Signature.Recv() == nil || P.Signature.Results().Len() != 1 || len(call.Call.Args) == 0 || an.PathOf(call.Call.Args[0]) != "recv" {
 		return nil
@@ -104,7 +145,7 @@ func preCheckDecide(c *core.Ctx, fn *ssa.Function, a, b ssa.Instruction) *preChe
 	// (1) shared mode only, no guarded write
 	for _, ap := range acquisitionPoints(c, P, 1) {
 		ci, isCall := ap.(ssa.CallInstruction)
-		if !isCall || an.CalleeName(ci.Common()) != "(*sync.RWMutex).RLock" {
+		if inline || !isCall || an.CalleeName(ci.Common()) != "(*sync.RWMutex).RLock" {
 			pc.why = "the first section takes the lock exclusively or through further methods"
 			return pc
 		}
@@ -161,7 +202,8 @@ func preCheckDecide(c *core.Ctx, fn *ssa.Function, a, b ssa.Instruction) *preChe
 			continue
 		}
 		rv := an.ReturnValues(ret)
-		if len(rv) != 1 || !(isConstBool(rv[0], true) || isConstBool(rv[0], false)) {
+		void := fn.Signature.Results().Len() == 0
+		if !void && (len(rv) != 1 || !(isConstBool(rv[0], true) || isConstBool(rv[0], false))) {
 			continue
 		}
 		clean := true
@@ -184,11 +226,33 @@ func preCheckDecide(c *core.Ctx, fn *ssa.Function, a, b ssa.Instruction) *preChe
 		pc.why = "no side of the branch on the pre-check's answer returns a constant at once"
 		return pc
 	}
-	rejRet := an.ReturnValues(an.LastInstr(pc.reject).(*ssa.Return))[0]
-	rejectConst := isConstBool(rejRet, true)
 	// (3) every rejecting way has a counterpart in the second section
 	pre, ok1 := an.ResultPathsDeepVia(P, 0, rejectPol, call)
-	all, ok2 := an.ResultPathsDeep(fn, 0, rejectConst)
+	var all []an.CondPath
+	ok2 := true
+	if fn.Signature.Results().Len() == 0 {
+		// an operation without a result "rejects" by returning without having changed anything:
+		// the counterparts are the ways through the second section that reach a return with no
+		// effect after the acquisition (no store, map update, delete, send or call)
+		for _, rb := range an.ReturnBlocks(fn) {
+			if rb == pc.reject {
+				continue
+			}
+			cps, okc := an.ReachCondPaths(fn, rb)
+			if !okc {
+				ok2 = false
+				break
+			}
+			for _, cp := range cps {
+				if cp.Path.Contains(b.Block()) && !effectAfter(cp.Path, b) {
+					all = append(all, cp)
+				}
+			}
+		}
+	} else {
+		rejRet := an.ReturnValues(an.LastInstr(pc.reject).(*ssa.Return))[0]
+		all, ok2 = an.ResultPathsDeep(fn, 0, isConstBool(rejRet, true))
+	}
 	if !ok1 || !ok2 || len(pre) == 0 {
 		pc.why = "the paths of the pre-check / of the operation could not be enumerated"
 		return pc
@@ -243,6 +307,7 @@ func preCheckDecide(c *core.Ctx, fn *ssa.Function, a, b ssa.Instruction) *preChe
 		pc.why = "the second section never returns the constant the pre-check's rejection returns"
 		return pc
 	}
+	mains = mergeCaseSplits(mains)
 	for _, rp := range pre {
 		have := map[string]bool{}
 		for k := range prefix {
@@ -286,6 +351,118 @@ func preCheckDecide(c *core.Ctx, fn *ssa.Function, a, b ssa.Instruction) *preChe
 		}
 	}
 	return pc
+}
+
+// negKey: the key of the opposite outcome of a condition key (condKey), "" if not recognised
+func negKey(k string) string {
+	for _, pr := range [][2]string{{" == ", " != "}, {" != ", " == "}, {" = true", " = false"}, {" = false", " = true"}} {
+		if strings.HasSuffix(pr[0], "e") { // "= true" / "= false" are suffixes
+			if strings.HasSuffix(k, pr[0]) {
+				return strings.TrimSuffix(k, pr[0]) + pr[1]
+			}
+			continue
+		}
+		if i := strings.Index(k, pr[0]); i >= 0 && strings.Count(k, pr[0]) == 1 {
+			return k[:i] + pr[1] + k[i+len(pr[0]):]
+		}
+	}
+	if i := strings.Index(k, " < "); i >= 0 && strings.Count(k, " < ") == 1 {
+		return k[i+3:] + " <= " + k[:i]
+	}
+	if i := strings.Index(k, " <= "); i >= 0 && strings.Count(k, " <= ") == 1 {
+		return k[i+4:] + " < " + k[:i]
+	}
+	return ""
+}
+
+// mergeCaseSplits: two ways that differ only in the outcome of one test (`if event.Kind == 5 {…}`
+// passed on the way, either side leading on) are one way without that test
+func mergeCaseSplits(mains [][]string) [][]string {
+	norm := func(ks []string) []string {
+		set := map[string]bool{}
+		for _, k := range ks {
+			set[k] = true
+		}
+		var out []string
+		for k := range set {
+			out = append(out, k)
+		}
+		sort.Strings(out)
+		return out
+	}
+	for i := range mains {
+		mains[i] = norm(mains[i])
+	}
+	for round := 0; round < 16; round++ {
+		merged := false
+		have := map[string]bool{}
+		for _, ks := range mains {
+			have[strings.Join(ks, "\x00")] = true
+		}
+		var next [][]string
+		for _, ks := range mains {
+			next = append(next, ks)
+			for i, k := range ks {
+				nk := negKey(k)
+				if nk == "" {
+					continue
+				}
+				sib := append(append([]string(nil), ks[:i]...), ks[i+1:]...)
+				sibWith := norm(append(append([]string(nil), sib...), nk))
+				if have[strings.Join(sibWith, "\x00")] {
+					red := norm(sib)
+					if !have[strings.Join(red, "\x00")] {
+						have[strings.Join(red, "\x00")] = true
+						next = append(next, red)
+						merged = true
+					}
+				}
+			}
+		}
+		mains = next
+		if !merged {
+			break
+		}
+	}
+	return mains
+}
+
+// effectAfter: on path p something is changed after instruction b (stores outside locals, map
+// updates, deletes, sends, calls other than releasing the lock)
+func effectAfter(p an.Path, b ssa.Instruction) bool {
+	after := false
+	for _, blk := range p {
+		for _, in := range blk.Instrs {
+			if in == b {
+				after = true
+				continue
+			}
+			if !after {
+				continue
+			}
+			switch x := in.(type) {
+			case *ssa.MapUpdate, *ssa.Send, *ssa.Go:
+				return true
+			case *ssa.Store:
+				if _, local := x.Addr.(*ssa.Alloc); !local {
+					return true
+				}
+			case *ssa.Call:
+				if bi, ok := x.Call.Value.(*ssa.Builtin); ok {
+					if bi.Name() == "delete" || bi.Name() == "close" || bi.Name() == "clear" || bi.Name() == "copy" {
+						return true
+					}
+					continue
+				}
+				switch an.CalleeName(&x.Call) {
+				case "(*sync.RWMutex).Unlock", "(*sync.Mutex).Unlock", "(*sync.RWMutex).RUnlock":
+					continue
+				}
+				return true
+			}
+		}
+	}
+	return false
 }
 
 // acceptedRejectBlocks: the blocks of fn in which an accepted pre-check's rejection returns.
